@@ -597,9 +597,23 @@ func (e *execState) runBlock(bi int, blk *Block, prev *Snap) (*blockObs, bool) {
 	if e.opt.BankFailEnum && (e.opt.EnumAll || uint64(e.s.Seed)%3 == 0) && res.Stats.Probes["enum_blocks"] < maxInt(e.opt.MaxEnumBlocks, 1) {
 		e.enumBankFail(bi, blk, txBytes, prev)
 	}
+	if faultOf(blk, FCheckTx) != nil {
+		// mempool traffic: CheckTx of the block's own transactions (and of garbage) runs on the check
+		// state and must not influence what FinalizeBlock does
+		for _, tb := range txBytes {
+			_, _ = n.App.CheckTx(&abci.RequestCheckTx{Tx: tb, Type: abci.CheckTxType_New})
+		}
+		_, _ = n.App.CheckTx(&abci.RequestCheckTx{Tx: []byte("not a transaction"), Type: abci.CheckTxType_New})
+		res.Stats.Faults[FCheckTx]++
+	}
 	br, preErrs := exec(n, oe)
 	if oe != "" {
 		res.Stats.Faults[oe]++
+	}
+	if faultOf(blk, FQuery) != nil && br.Err == nil && br.Panic == "" {
+		// a query between FinalizeBlock and Commit must still see the pre-block state
+		res.Stats.Faults[FQuery]++
+		e.queryNoise(bo, prev)
 	}
 	hookInjectedBegin := false
 	for _, h := range br.Hooks {
